@@ -473,6 +473,24 @@ def _main(pid, P, tier, repo, seed, scratch, ev_path, t0):
         probes = [cache[('probe', u)].result() for u in units]
         kani = kfut.result()
 
+    # functions the extractor had to degrade (lost anchor / unsupported construct): their clauses are undecided for this
+    # run; a bounded Kani stand-in, where one exists, can still REFUTE them (never prove them)
+    degraded_relevant = []
+    for ur in urs:
+        for f in ur.fns:
+            if not f.get('degraded'):
+                continue
+            tags_here = set(t for (_, _, _, tg) in ur.clause_tags_in_fn(f) for t in tg) | set(ur.fn_tags(f))
+            if pid in tags_here or pid == 'C08':
+                degraded_relevant.append((ur, f))
+    fb_res = None
+    if degraded_relevant:
+        names = []
+        for (_, f) in degraded_relevant:
+            names += [n for n in vpkani.FALLBACK.get(f['id'], []) if n not in names]
+        if names:
+            fb_res = vpkani.run_harnesses({'kani': {'quick': names}}, 'quick', repo, pid)
+
     obligations, discharged = 0, 0
     samples, fn_list, rewrites, solver_ms = [], [], {}, {}
     violations = []   # (failure dict, unit)
@@ -530,6 +548,16 @@ def _main(pid, P, tier, repo, seed, scratch, ev_path, t0):
                 solver_ms[name.split('::unit::')[-1]] = b.get('time', 0)
         for f in mine:
             violations.append((f, ur))
+    if degraded_relevant:
+        failed_fb = [h for h in (fb_res or {}).get('harnesses', []) if h['status'] == 'FAILURE']
+        for h in failed_fb:
+            violations.append((dict(kind='kani-bounded', clause='kani.' + h['name'], tags=[pid], fn=h['name'], repo_file=h.get('file'),
+                                    repo_line=None, fn_repo_lines=None,
+                                    message='bounded Kani stand-in %s failed (the function could not be verified deductively: %s)' % (h['name'], '; '.join(f['degraded'] for _, f in degraded_relevant)[:300]),
+                                    rendered=h.get('output_tail', ''), concrete=h.get('failed_checks')), None))
+        if not failed_fb:
+            undecided.append('not verified (degraded to an assumed contract): ' + '; '.join('%s: %s' % (f['id'], f['degraded']) for _, f in degraded_relevant)[:1500]
+                             + (' -- bounded stand-ins passed: ' + ','.join(h['name'] for h in fb_res['harnesses']) if fb_res and fb_res.get('harnesses') else ''))
     # Kani part
     kres = kani
     for h in kres.get('harnesses', []):
